@@ -135,13 +135,14 @@ def run(ctx: C.Ctx):
         + [("ccqr", "orth", "graded")] * ctx.scale(10, 100)
     # tall bases (many more modes / training examples than sensors) whose sensor rows differ in strength by 2^-24 … 2^-27 (a few loud
     # sensors, the others quiet): the choices among the quiet ones are unique by a wide margin – and far above double-precision rounding
-    plan += [("ccqr", "orth", "tall")] * ctx.scale(15, 150) + [("gqr", "orth", "tall")] * ctx.scale(15, 150) \
-        + [("gqr", "relabel", "tall")] * ctx.scale(10, 100) + [("ccqr", "scale", "tall")] * ctx.scale(10, 100)
+    plan += [("ccqr", "orth", "tall")] * ctx.scale(25, 250) + [("gqr", "orth", "tall")] * ctx.scale(25, 250) \
+        + [("gqr", "relabel", "tall")] * ctx.scale(25, 250) + [("ccqr", "relabel", "tall")] * ctx.scale(15, 150) \
+        + [("ccqr", "scale", "tall")] * ctx.scale(10, 100)
     for idx, (fk, ft, fo) in enumerate(plan):
         n = rng.randint(3, ctx.scale(10, 14)); m = rng.randint(2, ctx.scale(6, 10))
         B = gen.gen_generic_matrix(rng, n, m)
         if fo == "tall":
-            n = rng.randint(3, 5); m = 2 * n + rng.randint(1, 6)
+            n = rng.randint(4, 6); m = 2 * n + rng.randint(1, 6)
             B = gen.gen_generic_matrix(rng, n, m)
             if rng.random() < 0.3:
                 quiet = rng.sample(range(n), rng.randint(2, n - 1))
@@ -150,9 +151,9 @@ def run(ctx: C.Ctx):
                 ctx.count("tall_basis_with_quiet_sensors")
             else:
                 # nearly dependent sensors: a few dominant directions plus a faint independent part (2^-23 … 2^-27 of the rest)
-                r_ = rng.randint(1, n - 2)
+                r_ = rng.randint(1, n - 3)
                 B = gen.gen_generic_matrix(rng, n, r_, -4, 4) @ gen.gen_generic_matrix(rng, r_, m, -4, 4) \
-                    + gen.gen_generic_matrix(rng, n, m) * 2.0 ** -rng.choice([23, 25, 26, 27])
+                    + gen.gen_generic_matrix(rng, n, m) * 2.0 ** -rng.choice([25, 26, 27, 28])
                 ctx.count("tall_basis_nearly_dependent_sensors")
             fo = None
         if fo == "graded":
